@@ -9,14 +9,14 @@ if len(sys.argv) > 2:
     notes = json.load(open(sys.argv[2]))
 for blk in log.split("===== ")[1:]:
     head = blk.split("\n")[0]
-    m = re.match(r"(C\d+) seed (\d) \((\S+)\)", head)
+    m = re.match(r"(C\d+) seed (r2-)?(\d) \((\S+)\)", head)
     if not m:
         continue
-    pid, k, demo = m.group(1), m.group(2), m.group(3)
-    src = f"/tmp/seed/{pid}/out/{k}"
+    pid, r2, k, demo = m.group(1), m.group(2) or "", m.group(3), m.group(4)
+    src = f"/tmp/seed2/{pid}/out/{k}" if r2 else f"/tmp/seed/{pid}/out/{k}"
     if not os.path.isdir(src):
         continue
-    dst = os.path.join(ROOT, "seeded", f"{pid}-{k}")
+    dst = os.path.join(ROOT, "seeded", f"{pid}-{r2}{k}")
     os.makedirs(dst, exist_ok=True)
     for fn in ("patch.diff", "demo.rs", "README.md"):
         if os.path.exists(os.path.join(src, fn)):
@@ -40,12 +40,13 @@ for blk in log.split("===== ")[1:]:
             break
     demo_fails = "FAILED" in blk
     caught = bool(rules)
-    key = f"{pid}-{k}"
+    key = f"{pid}-{r2}{k}"
     meta = {
         "property": pid,
         "change": change,
         "needs_to_manifest": needs,
-        "origin": "fresh sub-agent given only the property text and a scratch worktree of /repo",
+        "origin": "fresh sub-agent given only the property text and a scratch worktree of /repo" +
+                  (" (second round: asked for blind spots of an unseen checker - unusual input classes, file-system states, rare entry points, order effects)" if r2 else ""),
         "confirmed": f"tools/seedtest.sh seeded/{key} {demo} {pid}: demo passes without and fails with the change"
                      f" ({'confirmed' if demo_fails else 'NOT confirmed'}); cargo test --offline green with the change",
         "detected_by": (f"./check {pid} --tier quick (VERIF_REPO=<scratch worktree>): VIOLATION with concrete replay; " + ", ".join(sorted(set(rules))))
